@@ -173,6 +173,7 @@ type driver struct {
 	seen    map[int64]bool
 	graceful bool              // phase down: after a stop (true) or a crash (false)
 
+	ids  []string // file identities seen, in order
 	kevs []string
 	obs  []string
 	o    oracle
@@ -308,6 +309,17 @@ func (d *driver) descOffset() (int64, bool) {
 	return ds[0][2].(int64), true
 }
 
+// idOf numbers the file identities in the order they are first seen (the first file is 0)
+func (d *driver) idOf(real string) int {
+	for i, x := range d.ids {
+		if x == real {
+			return i
+		}
+	}
+	d.ids = append(d.ids, real)
+	return len(d.ids) - 1
+}
+
 func (d *driver) fileId() string {
 	info, err := os.Stat(d.path)
 	if err != nil {
@@ -399,7 +411,7 @@ func (d *driver) apply(op Op) bool {
 			return false
 		}
 		d.obs = append(d.obs, GApp("OPersisted", GNat(int(pd.Offset)), GNat(int(pd.LastSeenSize))))
-		d.o.persisted(pd.Offset)
+		d.o.persisted(pd.Offset, pd.LastSeenSize)
 	case "stop":
 		d.kevs = append(d.kevs, "KStop")
 		if d.phase == "down" {
@@ -416,7 +428,7 @@ func (d *driver) apply(op Op) bool {
 			return false
 		}
 		d.obs = append(d.obs, GApp("OPersisted", GNat(int(pd.Offset)), GNat(int(pd.LastSeenSize))))
-		d.o.persisted(pd.Offset)
+		d.o.persisted(pd.Offset, pd.LastSeenSize)
 		d.phase, d.graceful = "down", true
 	case "crash":
 		d.kevs = append(d.kevs, "KCrash")
@@ -453,21 +465,29 @@ func (d *driver) apply(op Op) bool {
 				d.err = err
 				return false
 			}
+		} else if op.Mode == "truncate" { // the same file rewritten (copytruncate): the identity stays
+			if err := os.Truncate(d.path, 0); err != nil {
+				d.err = err
+				return false
+			}
 		} else if err := os.Remove(d.path); err != nil {
 			d.err = err
 			return false
 		}
-		if err := d.writeFile(op.Data, false); err != nil {
+		if err := d.writeFile(op.Data, op.Mode == "truncate"); err != nil {
 			d.err = err
 			return false
 		}
-		same := d.fileId() == old
-		d.o.replaced(same, d)
+		id := d.idOf(d.fileId())
+		d.o.replaced(id, d)
 		d.content = append([]byte{}, op.Data...)
-		d.kevs = append(d.kevs, GApp("KReplace", GBool(same), GBytes(op.Data)))
-		if same {
+		d.kevs = append(d.kevs, GApp("KReplace", GNat(id), GBytes(op.Data)))
+		switch {
+		case id == d.idOf(old):
 			d.tag["replace-same-id"]++
-		} else {
+		case id < len(d.ids)-1:
+			d.tag["replace-earlier-id"]++
+		default:
 			d.tag["replace-new-id"]++
 		}
 	case "sync":
@@ -517,16 +537,19 @@ type oracle struct {
 	conf     int64  // end of the last confirmed event
 	ends     map[int64]bool
 	pers     int64 // last persisted offset
+	persLss  int64 // ... and LastSeenSize
 	persConf int64 // conf when it was written
 	havePers bool
 	awaiting bool // an event is handed over and not confirmed
-	diskStale    bool // the file was replaced after the last save
-	replacedSame bool // ... by a file that got the same inode
+	diskStale bool // the file at the path was replaced after the last save
+	curId     int  // identity of the file at the path
+	savedId   int  // identity of the file the last save described
+	workerId  int  // identity of the file the current worker has open
 	split, partial, resend bool
 }
 
 // classes of recorded findings: they must not hide another violation of the same case
-var recorded = map[string]bool{"complete-lines-withheld-behind-partial-line": true, "replaced-file-same-inode-not-read-from-start": true}
+var recorded = map[string]bool{"complete-lines-withheld-behind-partial-line": true, "replaced-file-same-inode-not-shorter-not-read-from-start": true}
 
 func (o *oracle) fail(class, detail string) {
 	if o.viol == nil || (recorded[o.viol.Class] && !recorded[class]) {
@@ -573,27 +596,28 @@ func (o *oracle) offset(off int64) {
 		o.fail("offset-not-end-of-confirmed-event", fmt.Sprintf("descriptor offset %d after a confirmation, the confirmed event ended at %d", off, o.conf))
 	}
 }
-func (o *oracle) persisted(off int64) {
+func (o *oracle) persisted(off, lss int64) {
+	o.persLss = lss
 	if off > o.conf {
 		o.fail("persisted-offset-beyond-confirmed", fmt.Sprintf("scanner.json holds offset %d, confirmed up to %d", off, o.conf))
 	} else if !o.ends[off] {
 		o.fail("persisted-offset-not-a-confirmed-record-end", fmt.Sprintf("scanner.json holds offset %d which is neither the start offset nor the end of a confirmed event", off))
 	}
 	o.pers, o.persConf, o.havePers = off, o.conf, true
-	if o.wfile == nil { // the saved descriptor describes the file at the path
-		o.diskStale = false
-	}
+	// the saved descriptor describes the file the current worker has open
+	o.savedId, o.diskStale = o.workerId, o.wfile != nil
 }
-func (o *oracle) replaced(same bool, d *driver) {
+func (o *oracle) replaced(id int, d *driver) {
 	if d.phase != "down" && o.wfile == nil {
 		o.wfile = append([]byte{}, d.content...) // the running worker keeps the old file open
 	}
-	o.diskStale, o.replacedSame = true, same
+	o.diskStale, o.curId = true, id
 }
 
 // restartAt: a worker starts reading the file at the path from off
 func (o *oracle) restartAt(off int64) {
 	o.wfile = nil
+	o.workerId = o.curId
 	o.pos, o.conf = off, off
 	o.ends = map[int64]bool{off: true}
 	o.awaiting = false
@@ -610,10 +634,11 @@ func (o *oracle) restart(off int64, d *driver) {
 	case o.diskStale: // the saved state describes a file that has been replaced since
 		if off != 0 {
 			cls := "replaced-file-not-read-from-start"
-			if o.replacedSame {
-				cls = "replaced-file-same-inode-not-read-from-start"
+			if o.curId == o.savedId && int64(len(d.content)) >= o.pers && int64(len(d.content)) >= o.persLss {
+				// the one case the scanner cannot tell from growth: same inode, not shorter than what it had seen
+				cls = "replaced-file-same-inode-not-shorter-not-read-from-start"
 			}
-			o.fail(cls, fmt.Sprintf("the file was replaced while the collector was down; the new file is read from offset %d", off))
+			o.fail(cls, fmt.Sprintf("the file was replaced after the last save; the new file is read from offset %d", off))
 		}
 	case d.graceful:
 		if off < o.conf {
@@ -646,22 +671,26 @@ func (o *oracle) sleep(partial bool, d *driver) {
 	if partial {
 		o.partial = true
 	}
-	if o.awaiting {
+	if o.awaiting || o.wfile != nil {
 		return
 	}
-	if !partial {
-		// nothing to send and nothing buffered: everything in the file must have been handed over
-		if o.pos != int64(len(f)) {
-			o.fail("bytes-not-handed-over-at-idle-eof", fmt.Sprintf("the worker idles at EOF, handed over up to %d of %d bytes", o.pos, len(f)))
-		}
-		return
-	}
-	// partial line pending: everything up to the last complete line should have been handed over;
-	// bytes after it are the partial line (shorter than a buffer)
+	// the worker is idle and has seen the whole file: everything up to the last complete line must have
+	// been handed over; what may remain is an unterminated last line
 	last := int64(bytes.LastIndexByte(f, '\n') + 1)
-	if o.pos < last && o.wfile == nil {
-		o.fail("complete-lines-withheld-behind-partial-line", fmt.Sprintf("the worker waits for the rest of a partial line; complete lines in bytes %d..%d are read but not handed over", o.pos, last))
+	switch {
+	case o.pos < last:
+		n := bytes.Count(f[o.pos:last], []byte{'\n'})
+		switch {
+		case n >= d.rp.Rpe: // a full batch must have been handed over whatever follows it
+			o.fail("full-batch-not-handed-over", fmt.Sprintf("%d complete lines in bytes %d..%d are read but not handed over, EventMaxRecords=%d", n, o.pos, last, d.rp.Rpe))
+		case partial:
+			o.fail("complete-lines-withheld-behind-partial-line", fmt.Sprintf("the worker waits for the rest of a partial line; complete lines in bytes %d..%d are read but not handed over", o.pos, last))
+		default:
+			o.fail("bytes-not-handed-over-at-idle-eof", fmt.Sprintf("the worker idles at EOF, handed over up to %d, complete lines up to %d", o.pos, last))
+		}
 	}
+	// (an unterminated tail may grow beyond the record limit when it arrives in pieces shorter than the
+	// buffer: the reader only splits when one ReadSlice fills the buffer; the property does not bound it)
 }
 
 func minI(a, b int64) int64 {
@@ -813,7 +842,7 @@ func (d *driver) draw(r *Rng, pending *[][]byte, total *int) Op {
 		case x < 93:
 			return Op{K: "persist"} // no process: nothing happens
 		default:
-			return Op{K: "replace", Mode: r.PickStr("rename", "delete"), Data: flat(genPieces(r, d.rp.B, r.PickInt(10, 60, 200)))}
+			return Op{K: "replace", Mode: r.PickStr("rename", "delete", "truncate"), Data: flat(genPieces(r, d.rp.B, r.PickInt(10, 60, 200, 300)))}
 		}
 	}
 }
@@ -838,6 +867,7 @@ func runCase(rp *Replay, r *Rng) (*Case, error) {
 		return nil, err
 	}
 	d.content = append([]byte{}, rp.Init...)
+	d.idOf(d.fileId())
 	if r == nil {
 		for _, op := range rp.Ops {
 			if !d.apply(op) {
@@ -888,6 +918,29 @@ func runCase(rp *Replay, r *Rng) (*Case, error) {
 	}, nil
 }
 
+// corpus: deterministic cases that always run first (the witnesses of the refuted statements of props/C17.v
+// that can be scheduled from outside, and the worked example)
+func corpus() []*Replay {
+	bs := func(s string) []byte { return []byte(s) }
+	b16 := strings.Repeat("b", 64)
+	return []*Replay{
+		// C17_up_to_last_line_refuted: "aaa\n" is read but withheld while "bb" is not terminated
+		{B: 64, Rpe: 2, Format: "pure", Init: bs("aaa\nbb"), Ops: []Op{{K: "start"}, {K: "run"}, {K: "app", Data: bs("\n")}, {K: "run"}, {K: "confirm"}}},
+		// C17_rotate_same_inode_refuted: same inode, new content at least as long as the saved offset
+		{B: 64, Rpe: 1, Format: "pure", Init: bs("ab\n"), Ops: []Op{{K: "start"}, {K: "confirm"}, {K: "persist"}, {K: "stop"},
+			{K: "replace", Mode: "truncate", Data: bs("xyz\nq\n")}, {K: "start"}, {K: "confirm"}}},
+		// same inode but shorter than the saved offset: read from 0
+		{B: 64, Rpe: 1, Format: "text", Init: bs("abcdef\n"), Ops: []Op{{K: "start"}, {K: "confirm"}, {K: "stop"},
+			{K: "replace", Mode: "truncate", Data: bs("x\n")}, {K: "start"}, {K: "confirm"}}},
+		// split line, EOF inside a line, stalled consumer, persist, crash, re-send after the restart
+		{B: 64, Rpe: 2, Format: "pure", Init: bs("a\n" + b16 + "b"), Ops: []Op{{K: "start"}, {K: "app", Data: bs("c\nd")}, {K: "confirm"}, {K: "persist"},
+			{K: "run"}, {K: "app", Data: bs("\n")}, {K: "run"}, {K: "crash"}, {K: "start"}, {K: "confirm"}, {K: "stop"}, {K: "start"}}},
+		// rotation by rename+create while running and while down
+		{B: 64, Rpe: 3, Format: "pure", Init: bs("one\ntwo\n"), Ops: []Op{{K: "start"}, {K: "confirm"}, {K: "persist"}, {K: "replace", Mode: "rename", Data: bs("new1\nnew2\n")},
+			{K: "sync"}, {K: "confirm"}, {K: "persist"}, {K: "stop"}, {K: "replace", Mode: "rename", Data: bs("third\n")}, {K: "start"}, {K: "confirm"}}},
+	}
+}
+
 const rule = "a file of lines (lengths 0, 1-12, B-1, B, B+1, B+2, 2B+3 incl. newline; bytes incl. NUL, 0x80-0xff, CR, quotes; final newline missing in 1/4) appended in 1-20 pieces cut anywhere, scheduled online against the real scanner: append / release the sleeping worker / confirm or hold the event / persist / graceful stop / crash / start / replace the file (rename+create or delete+create, live or while down) / sync; B in {64,65,100}, EventMaxRecords in {1,2,3,1000}, formats pure and text; a case is non-trivial iff a record was split by the full buffer or an EOF fell inside a line; distinct by the Coq case term"
 
 func main() {
@@ -904,12 +957,15 @@ func main() {
 			c.Add(*cs)
 			return c.Finish(rule)
 		}
-		n := c.N(300)
+		n := c.N(450)
 		type job struct {
 			rp *Replay
 			r  *Rng
 		}
 		var jobs []job
+		for _, rp := range corpus() {
+			jobs = append(jobs, job{rp, nil})
+		}
 		for i := 0; i < n; i++ {
 			r := c.Rng.Fork()
 			rp := &Replay{B: r.PickInt(64, 64, 64, 65, 100), Rpe: r.PickInt(1, 2, 3, 3, 1000), Format: r.PickStr("pure", "pure", "text"), steps: r.PickInt(12, 25, 40, 60)}
@@ -924,6 +980,9 @@ func main() {
 		for i := range jobs {
 			if errs[i] != nil {
 				return errs[i]
+			}
+			if jobs[i].r == nil {
+				res[i].Stream = "corpus"
 			}
 			c.Add(*res[i])
 		}
